@@ -1813,9 +1813,12 @@ class Compiler:
 
             # The filler is a function of its own: it keeps track of
             # its own current token and records a failure like a macro
-            body = template("__token = None") + self._record_error(
-                self.visit_Context(slot) or [ast.Pass()]
-            )
+            # and writes to the stream that it is given (inside a
+            # translation block of the macro that is not the main one).
+            body = template("__append = __stream.append") + \
+                template("__token = None") + self._record_error(
+                    self.visit_Context(slot) or [ast.Pass()]
+                )
 
             assert self._current_slot.pop() == slot.name
 
